@@ -88,6 +88,15 @@ class Executor:
             if st_["slot"] in self.readers:
                 self.readers.pop(st_["slot"]).close()
             # the file is named as a str, a pathlib.Path, a bytes path or handed over as an open file object
+            if st_.get("form") == "relative":
+                # named relative to the directory the program is in at that moment; the program moves on afterwards
+                here = os.getcwd()
+                os.chdir(os.path.dirname(self.path))
+                try:
+                    self.readers[st_["slot"]] = SgzReader(os.path.basename(self.path), preload=st_["preload"], chunk_cache_size=st_["cache"])
+                finally:
+                    os.chdir(here)
+                return None
             self.readers[st_["slot"]] = SgzReader(ops.in_form(self.path, st_.get("form", "str"), self.files),
                                                   preload=st_["preload"], chunk_cache_size=st_["cache"])
             return None
@@ -230,7 +239,7 @@ def make_machine(ctx, state):
             else:
                 ctx.labels[st_["op"]] += 1
 
-        @rule(slot=st.integers(0, 2), preload=st.booleans(), cache=st.sampled_from([1, 2, None]), form=st.sampled_from(ops.PATH_FORMS))
+        @rule(slot=st.integers(0, 2), preload=st.booleans(), cache=st.sampled_from([1, 2, None]), form=st.sampled_from(ops.PATH_FORMS + ["relative"]))
         def open_reader(self, slot, preload, cache, form):
             self.do({"op": "open", "slot": slot, "preload": preload, "cache": cache, "form": form})
 
